@@ -756,7 +756,7 @@ def window_stream(r):
 JG_DIMS = ["targets", "max_distance", "metric", "raster", "identical"]
 
 
-def gen_jointgraph(rng, g_index, modes):
+def gen_jointgraph(rng, g_index, modes, n_variants=2):
     """first call: a raster with two or three classes, targets = one class; every other call differs from it in exactly one
     place (target_values / max_distance / metric / the raster / nothing), the function possibly swapped for a sibling
     (proximity / allocation / direction share `_process`)"""
@@ -776,8 +776,8 @@ def gen_jointgraph(rng, g_index, modes):
                 max_distance=rng.choice(fit), mode=rng.choice(MODES), rch=list(random_composition(rng, h)),
                 cch=list(random_composition(rng, w)), sched=["synchronous", None], dtype="float64")
     calls, dims = [base], []
-    for i in range(3):
-        d = JG_DIMS[(g_index + i) % len(JG_DIMS)]
+    for i in range(n_variants):
+        d = JG_DIMS[(g_index * n_variants + i) % len(JG_DIMS)]
         c = dict(base)
         if d == "targets":
             c["targets"] = rng.choice([t for t in ([1.0], [2.0], [3.0], [1.0, 3.0], []) if t != base["targets"]])
@@ -917,7 +917,7 @@ def run(r, n_override=None):
               "compositions (merged as dask merges them), whole-raster kernel vs kernel on each halo window, three modes; "
               "non-trivial = some window leaves a target outside and some cell has a non-zero distance; plus the exhaustive "
               "spaces listed under exhaustive_space (all layouts with few targets x every block of every chunking). "
-              "stream joint-graph: groups of up to 4 public calls on one Dask-backed raster (3..7 x 3..7, two or three classes) -- the "
+              "stream joint-graph: groups of 3 (thorough 4) public calls on one Dask-backed raster (3..7 x 3..7, two or three classes) -- the "
               "first with target_values = one class, each other one differing from it in exactly one place, rotating over "
               "target_values / max_distance / metric / the raster / nothing, the function swapped for a sibling 35% -- whose lazy "
               "results are evaluated in ONE graph (dask.compute of all / xr.Dataset / a - b), each judged against its own NumPy-backed "
@@ -928,14 +928,16 @@ def run(r, n_override=None):
     nproc = min(16, os.cpu_count() or 4)
     chunks = [cases[i::nproc] for i in range(nproc)]
     import jointgraph
-    n_groups = {"quick": 8, "thorough": 48}[r.tier] * (1 if n_override is None else 2)
+    n_groups = {"quick": 6, "thorough": 48}[r.tier] * (1 if n_override is None else 2)
     k0 = r.rng.randrange(15)
     groups = [b["case"] for b in r.corpus() if b["case"].get("stream") == "joint-graph"] + \
-        [gen_jointgraph(r.rng, k0 + g, [jointgraph.MODES[(k0 + g + i) % 3] for i in range(2 if r.tier == "quick" else 3)])
+        [gen_jointgraph(r.rng, k0 + g, [jointgraph.MODES[(k0 + g + i) % 3] for i in range(2 if r.tier == "quick" else 3)],
+                        n_variants=2 if r.tier == "quick" else 3)
          for g in range(n_groups)]
     with mp.get_context("fork").Pool(nproc) as pool:
-        pending = pool.map_async(work_joint, [[g] for g in groups], chunksize=1)
-        results = pool.map(work, chunks)
+        first = pool.map_async(work, chunks, chunksize=1)
+        pending = pool.map_async(work_joint, [[g] for g in groups], chunksize=1)      # fill the workers as they finish
+        results = first.get()
         joint_results = [x[0] for x in pending.get()]
     for g, res in zip(groups, joint_results):
         judge_jointgraph(r, g, res)
